@@ -362,6 +362,15 @@ func (w *World) checkQuery(prop string, txn statedb.ReadTxn, tc *TableCtx, st *T
 	if perKey != nil && sameRes(got, perKey) {
 		return true
 	}
+	if w.prop != "C04" {
+		// an object written by a transaction that was aborted: exactly C02's "Abort leaves no trace"
+		for _, g := range got {
+			if g.O != nil && w.abortedTxn[g.O.Stamp] {
+				w.violate("C02", "aborted-write-visible", "%s table %s (revision %d) %v returns %v@%d, written by transaction T%d which was aborted: got %s want %s", what, tc.M.Name, st.Rev, q, g.O, g.Rev, g.O.Stamp, fmtRes(got), fmtRes(want))
+				return false
+			}
+		}
+	}
 	w.violate("C04", "query-mismatch", "%s table %s (revision %d) %v: got %s want %s", what, tc.M.Name, st.Rev, q, fmtRes(got), fmtRes(want))
 	return false
 }
